@@ -401,9 +401,14 @@ def plan(run, rng, stores):
         else:
             subsets += [rng.sample(opts, max(1, len(opts) // 2)) for _ in range(3)]
         sizes = SIZES[fmt] if run.thorough() else [s for s in SIZES[fmt] if s <= 1000]
+        if run.thorough():
+            # every pair and triple of optional attributes, random sizes between the boundaries
+            subsets += [list(p) for p in itertools.combinations(opts, 3)] if len(opts) > 10 else []
+            top = min(max(sizes), 1200)
+            sizes = list(sizes) + sorted({rng.randint(1, top) for _ in range(8)} - set(sizes))
         mags = ["small", "negwide", "wide", "mixed"]
         for i, sub in enumerate(subsets):
-            for j, n in enumerate(sizes if i < 2 else [rng.choice(sizes[:6])]):
+            for j, n in enumerate(sizes if i < 2 else ([rng.choice(sizes[:6])] if not run.thorough() else rng.sample(sizes, min(3, len(sizes))))):
                 for mag in (mags if (i < 2 and j in (0, len(sizes) - 1)) else [mags[(i + j) % 4]]):
                     if fmt == "pdb" and mag == "wide" and n > 300:
                         continue
